@@ -31,6 +31,8 @@ CHUNK = 6
 FAMILY_NAMES = ["Packetizer", "Depacketizer", "RoundTrip", "PacketFIFO", "Arbiter", "Dispatcher"]
 
 
+SEEDED_SCALE = {"quick": 2, "thorough": 3}      # multiplies the run counts of the sampled families in plan()
+
 def plan(tier):
     n = 300 if tier == "quick" else 6000
     return [(f, n) for f in FAMILY_NAMES]
